@@ -174,16 +174,12 @@ def defaultHeaders (s : MsgState) (e : Entropy) : MsgState :=
 
 def mimeSigned : Bytes := sb "signed; protocol=\"application/pkcs7-signature\"; micalg=sha-256"
 
-/-- msgWriter.writeMsg. `outer` = the S/MIME wrapper is written (hasSMIME ∧ ¬inProgress). -/
-def writeMsg (s : MsgState) (e : Entropy) (outer : Bool) (signing : Bool := false) : PW × MsgState :=
-  let s := defaultHeaders s e
-  let p : PW := { rawPartHeaders := signing }
-  -- writeGenHeader (sorted) and writePreformattedGenHeader (sorted)
+/-- writeGenHeader (sorted), writePreformattedGenHeader (sorted), From / To / Cc / Reply-To -/
+def stageHeaders (s : MsgState) (p : PW) : PW :=
   let p := (sortKeys s.gen).foldl (fun p kv => p.header true kv.1 kv.2) p
   let p := (sortKeys s.preform).foldl (fun p kv =>
     let line := kv.1 ++ [58, 32] ++ kv.2 ++ crlf
     { (p.str line) with headerCount := p.headerCount + countSub crlf line }) p
-  -- From (or envelope from), To, Cc, Reply-To
   let from_ := match addrGet s .from_ with
     | some (a :: _) => some a
     | _ => match addrGet s .envFrom with
@@ -192,38 +188,49 @@ def writeMsg (s : MsgState) (e : Entropy) (outer : Bool) (signing : Bool := fals
   let p := match from_ with
     | some a => p.header true (sb "From") [a.str]
     | none => p
-  let p := [(AddrKind.to, sb "To"), (.cc, sb "Cc"), (.replyTo, sb "Reply-To")].foldl (fun p kn =>
+  [(AddrKind.to, sb "To"), (.cc, sb "Cc"), (.replyTo, sb "Reply-To")].foldl (fun p kn =>
     match addrGet s kn.1 with
     | some as => p.header true kn.2 (as.map (·.str))
     | none => p) p
-  -- multipart layers
-  let p := if outer then ((p.startMP mimeSigned e.bSigned e.bSigned).1).str (crlf ++ crlf) else p
-  let given (p : PW) (cached : Bytes) : Bytes := if !s.boundary.isEmpty && p.depth == 0 then s.boundary else cached
-  let (p, s) :=
-    if hasMixed s then
-      let (p, b) := p.startMP (sb "mixed") (given p s.bMixed) e.bMixed
-      (if p.depth == 1 then p.str (crlf ++ crlf) else p, { s with bMixed := b })
-    else (p, s)
-  let (p, s) :=
-    if hasRelated s then
-      let (p, b) := p.startMP (sb "related") (given p s.bRelated) e.bRelated
-      (if p.depth == 1 then p.str (crlf ++ crlf) else p, { s with bRelated := b })
-    else (p, s)
-  let (p, s) :=
-    if hasAlt s then
-      let (p, b) := p.startMP (sb "alternative") (given p s.bAlt) e.bAlt
-      (if p.depth == 1 then p.str (crlf ++ crlf) else p, { s with bAlt := b })
-    else (p, s)
+
+/-- the boundary handed to startMP: the user's boundary only for the outermost multipart, else the cache -/
+def givenBoundary (s : MsgState) (p : PW) (cached : Bytes) : Bytes :=
+  if !s.boundary.isEmpty && p.depth == 0 then s.boundary else cached
+
+/-- one `if msg.hasX() { startMP; cache; DoubleNewLine at depth 1 }` block -/
+def openLayer (s : MsgState) (p : PW) (mimeType cached fresh : Bytes) : PW × Bytes :=
+  let (p, b) := p.startMP mimeType (givenBoundary s p cached) fresh
+  (if p.depth == 1 then p.str (crlf ++ crlf) else p, b)
+
+/-- the S/MIME wrapper and the mixed / related / alternative layers. The three layer decisions only
+    read parts / embeds / attachments, so they are taken from the state as it is; the boundaries in
+    effect go into the boundary cache. -/
+def stageOpen (s : MsgState) (e : Entropy) (outer : Bool) (p : PW) : PW × MsgState :=
+  let p0 := if outer then ((p.startMP mimeSigned e.bSigned e.bSigned).1).str (crlf ++ crlf) else p
+  let r1 := if hasMixed s then openLayer s p0 (sb "mixed") s.bMixed e.bMixed else (p0, s.bMixed)
+  let r2 := if hasRelated s then openLayer s r1.1 (sb "related") s.bRelated e.bRelated else (r1.1, s.bRelated)
+  let r3 := if hasAlt s then openLayer s r2.1 (sb "alternative") s.bAlt e.bAlt else (r2.1, s.bAlt)
+  (r3.1, { s with bMixed := r1.2, bRelated := r2.2, bAlt := r3.2 })
+
+/-- body parts, embeds, attachments, with the closing delimiters of their layers; then the signature part -/
+def stageContent (s : MsgState) (outer : Bool) (p : PW) (embeds attachments : List FileM) : PW :=
   let p := (s.parts.filter (fun x => !x.deleted && !x.smime)).foldl (fun p x => p.writePart s x) p
   let p := if hasAlt s then p.stopMP else p
-  let embeds := s.embeds.map (fileHeaders s false)
   let p := embeds.foldl PW.addFile p
   let p := if hasRelated s then p.stopMP else p
-  let attachments := s.attachments.map (fileHeaders s true)
   let p := attachments.foldl PW.addFile p
   let p := if hasMixed s then p.stopMP else p
-  let p := if outer then ((s.parts.filter (·.smime)).foldl (fun p x => p.writePart s x) p).stopMP else p
-  (p, { s with embeds := embeds, attachments := attachments })
+  if outer then ((s.parts.filter (·.smime)).foldl (fun p x => p.writePart s x) p).stopMP else p
+
+/-- msgWriter.writeMsg. `outer` = the S/MIME wrapper is written (hasSMIME ∧ ¬inProgress);
+    `signing` = this is the signing pre-render (rawPartHeaders). -/
+def writeMsg (s : MsgState) (e : Entropy) (outer : Bool) (signing : Bool := false) : PW × MsgState :=
+  let s := defaultHeaders s e
+  let p := stageHeaders s { rawPartHeaders := signing }
+  let (p, s) := stageOpen s e outer p
+  let embeds := s.embeds.map (fileHeaders s false)
+  let attachments := s.attachments.map (fileHeaders s true)
+  (stageContent s outer p embeds attachments, { s with embeds := embeds, attachments := attachments })
 
 /-- skip `n` CRLF-terminated lines (Msg.signMessage's loop); `none` = "unable to find message body" -/
 def skipLines : Nat → Bytes → Option Bytes
